@@ -339,3 +339,66 @@ fn c04_record_eq_hash_canonical() {
     assert!(r1.canonical_cmp(&r2) == want);
     kani::cover!(r1 == r2 && t1 != t2, "equal records with different TTLs");
 }
+
+// ------------------------------------ canonical RDATA order, per type (H5)
+use domain::base::iana::{DigestAlgorithm, SecurityAlgorithm};
+use domain::base::rdata::ComposeRecordData;
+use domain::rdata::{Dnskey, Ds, Mx, Txt};
+
+macro_rules! canon_order {
+    ($a:expr, $b:expr) => {{
+        let (a, b) = ($a, $b);
+        let mut ba = FixedBuf::<32> { data: [0; 32], len: 0 };
+        let mut bb = FixedBuf::<32> { data: [0; 32], len: 0 };
+        a.compose_canonical_rdata(&mut ba).unwrap();
+        b.compose_canonical_rdata(&mut bb).unwrap();
+        let want = lex_cmp(ba.as_slice(), bb.as_slice(), false);
+        assert!(a.canonical_cmp(&b) == want);
+        assert!(b.canonical_cmp(&a) == want.reverse());
+        want
+    }};
+}
+
+// @funcs: <A/Ds/Dnskey as CanonicalOrd>::canonical_cmp, compose_canonical_rdata
+// @bound: pairs of A (all addresses), DS and DNSKEY values (all fixed fields, digests/keys of 2 symbolic octets): canonical_cmp = octet-wise order of the canonical wire forms (RFC 4034 6.3), antisymmetric
+#[kani::proof]
+#[kani::unwind(10)]
+fn c04_canonical_rdata_order_a_ds_dnskey() {
+    let which: u8 = kani::any();
+    kani::assume(which < 3);
+    if which == 0 {
+        let (x, y): ([u8; 4], [u8; 4]) = (kani::any(), kani::any());
+        canon_order!(A::from_octets(x[0], x[1], x[2], x[3]), A::from_octets(y[0], y[1], y[2], y[3]));
+    } else if which == 1 {
+        let (k1, k2, a1, a2, d1, d2): (u16, u16, u8, u8, u8, u8) = (kani::any(), kani::any(), kani::any(), kani::any(), kani::any(), kani::any());
+        let (g1, g2): ([u8; 2], [u8; 2]) = (kani::any(), kani::any());
+        canon_order!(
+            Ds::new(k1, SecurityAlgorithm::from_int(a1), DigestAlgorithm::from_int(d1), &g1[..]).unwrap(),
+            Ds::new(k2, SecurityAlgorithm::from_int(a2), DigestAlgorithm::from_int(d2), &g2[..]).unwrap()
+        );
+    } else {
+        let (f1, f2, p1, p2, a1, a2): (u16, u16, u8, u8, u8, u8) = (kani::any(), kani::any(), kani::any(), kani::any(), kani::any(), kani::any());
+        let (g1, g2): ([u8; 2], [u8; 2]) = (kani::any(), kani::any());
+        canon_order!(
+            Dnskey::new(f1, p1, SecurityAlgorithm::from_int(a1), &g1[..]).unwrap(),
+            Dnskey::new(f2, p2, SecurityAlgorithm::from_int(a2), &g2[..]).unwrap()
+        );
+    }
+}
+
+// @funcs: <Mx as CanonicalOrd>::canonical_cmp, <Txt as CanonicalOrd>::canonical_cmp, compose_canonical_rdata
+// @bound: pairs of MX values (any preference, exchange with structure (2,1), symbolic content incl. case variants) and pairs of one-string TXT values of 2 symbolic octets: canonical_cmp = octet-wise order of the canonical wire forms
+#[kani::proof]
+#[kani::unwind(10)]
+fn c04_canonical_rdata_order_mx_txt() {
+    if kani::any() {
+        let (fa, fb) = (FlatName::any::<2, 1>(), FlatName::any::<2, 1>());
+        let (p1, p2): (u16, u16) = (kani::any(), kani::any());
+        let w = canon_order!(Mx::new(p1, fa.name()), Mx::new(p2, fb.name()));
+        kani::cover!(w == Ordering::Equal && fa.w != fb.w, "case variants are canonically equal");
+    } else {
+        let (x, y): ([u8; 2], [u8; 2]) = (kani::any(), kani::any());
+        let (wx, wy) = ([2u8, x[0], x[1]], [2u8, y[0], y[1]]);
+        canon_order!(Txt::from_octets(&wx[..]).unwrap(), Txt::from_octets(&wy[..]).unwrap());
+    }
+}
